@@ -270,8 +270,10 @@ copy_gr(int32 infile_id, int32 outfile_id, int32 gr_in, int32 gr_out, int32 tag,
                                      dimsizes,     /* dimensions (for SZIP), IN */
                                      dtype         /* numeric type ( for SZIP), IN */
         );
-        if (have_info == FAIL)
+        if (have_info == FAIL) {
+            ret = -1;
             goto out;
+        }
     } /* check inspection mode */
 
     /*-------------------------------------------------------------------------
